@@ -1,11 +1,29 @@
 // ---- shims/f64.rs: floating point (A-float) --------------------------------
 // Float results are unconstrained; float branches are verified for
 // panic-freedom only.
+pub uninterp spec fn f64_is_nan(x: f64) -> bool;
+
+pub uninterp spec fn f64_is_infinite(x: f64) -> bool;
+
+/// neither NaN nor infinite
+pub open spec fn f64_is_finite(x: f64) -> bool {
+    !f64_is_nan(x) && !f64_is_infinite(x)
+}
+
+/// IEEE comparison (opaque)
+pub uninterp spec fn f64_cmp_spec(a: f64, b: f64) -> Option<core::cmp::Ordering>;
+
 pub assume_specification[ f64::abs ](x: f64) -> f64;
 
-pub assume_specification[ f64::is_nan ](x: f64) -> bool;
+pub assume_specification[ f64::is_nan ](x: f64) -> (r: bool)
+    ensures
+        r == f64_is_nan(x),
+;
 
-pub assume_specification[ f64::is_infinite ](x: f64) -> bool;
+pub assume_specification[ f64::is_infinite ](x: f64) -> (r: bool)
+    ensures
+        r == f64_is_infinite(x),
+;
 
 pub assume_specification[ f64::powi ](x: f64, n: i32) -> f64;
 
@@ -42,6 +60,14 @@ pub fn vx_f64_rem(a: f64, b: &f64) -> f64 {
 }
 
 #[verifier::external_body]
-pub fn vx_f64_partial_cmp(a: &f64, b: &f64) -> Option<core::cmp::Ordering> {
+pub fn vx_f64_partial_cmp(a: &f64, b: &f64) -> (r: Option<core::cmp::Ordering>)
+    ensures
+        r == f64_cmp_spec(*a, *b),
+{
     a.partial_cmp(b)
 }
+
+pub assume_specification[ i64::max_value ]() -> (r: i64)
+    ensures
+        r == i64::MAX,
+;
